@@ -1,13 +1,16 @@
 SPECIFICATION MCSpec
 CONSTANTS
+  FifoLock = TRUE
   Types = {"T1", "T2"}
   Procs = {1, 2}
   Fns = {"f0"}
   Vals = {"a"}
   Ctxs = {}
+  PubCtxs = {"bg"}
   Profiles <- c02Profiles
   Cfgs <- noCfg
   TopKinds = {"sub", "unsub", "clear", "pub"}
+  Roles <- allRoles
   MaxReg = 2
   MaxPub = 2
   MaxTop = 0
